@@ -343,6 +343,38 @@ def run(ctx: Ctx, rs: RuleSet, tier: str):
              'configuration\'s own containers; separate builds share nothing)',
              1)
   c08.map_children_rule(ctx, rs, 'SHAPE.map-children')
+  # ---- no cache between a Buildable and its built value
+  rule_c = 'FRESH.no-build-cache'
+  rs.declare(rule_c, 'no function on the build path returns a cached result '
+             '(distinct but equal Buildables are built separately)', 1)
+  closure = ctx.cg.reachable([BUILD], kinds=('exact', 'nested', 'proto'))
+  accepted = {
+      'fiddle._src.reraised_exception.make_exception_class':
+          'error path only: the proxy exception *class* per exception type, '
+          'not a built value',
+  }
+  cached = []
+  for q in sorted(closure):
+    f2 = p.funcs.get(q)
+    if f2 is None or not q.startswith('fiddle._src.') or f2.is_lambda:
+      continue
+    if any('cache' in unparse(d) for d in f2.decorators):
+      cached.append(f2)
+  for f2 in cached:
+    if f2.qualname in accepted:
+      rs.exception(rule_c, f2.qualname, accepted[f2.qualname])
+      rs.ok(rule_c, f2.qualname, 'cached, accepted: ' + accepted[f2.qualname],
+            ctx.loc(f2, f2.node))
+    else:
+      rs.fail(rule_c, f2.qualname,
+              f'{f2.qualname} is decorated with a cache and lies on the build '
+              'path: two distinct Buildables with equal (hashable) arguments '
+              'receive the same object, so they are built once and share one '
+              'result', ctx.loc(f2, f2.node),
+              witness=ctx.cg.path_to(closure, f2.qualname))
+  if not cached:
+    rs.ok(rule_c, BUILD, f'{len(closure)} functions on the build path, none '
+          'cached', '')
   # ---- children before call, once per miss
   c01.children_before_call(ctx, rs)
   rule = 'DOM.single-invocation'
